@@ -405,11 +405,11 @@ theorem mrelM_loopDispatch (P : Prims) (hP : PrimsRespectM t P) (loc : Loc) (tr 
     unfold loopDispatch
     exact mrelM_loopIterate P hP loc tr var colsE hb (.cons hx hxs)
 
-theorem loopItems_mp {v v' : GoVal} (h : UMP v v') : RRel t (All2 MP) (loopItems v) (loopItems v') := by
+theorem loopItems_mp {budget : Int} {v v' : GoVal} (h : UMP v v') : RRel t (All2 MP) (loopItems budget v) (loopItems budget v') := by
   rcases loopItems_mp_cases h.2.2 with ⟨xs, xs', h1, h2, hn⟩ | ⟨h1, h2⟩
   · rw [h1, h2]; exact hn.all2
   · rw [← h1]
-    cases hl : loopItems v with
+    cases hl : loopItems budget v with
     | ok xs => exact absurd hl (h2 xs)
     | _ => simp [RRel]
 
@@ -417,10 +417,10 @@ theorem all2_selectItemsM {xs xs' : List GoVal} (h : All2 MP xs xs') (rev : Bool
     All2 MP (selectItems rev off lim xs) (selectItems rev off lim xs') := by
   exact (selectItems_mp h.mpl rev off lim).all2
 
-theorem mrelM_loopRun (P : Prims) (hP : PrimsRespectM t P) (path : Bytes) (loc : Loc) (tr : Bool) (var : Bytes) (e : Expr)
+theorem mrelM_loopRun {budget : Int} (P : Prims) (hP : PrimsRespectM t P) (path : Bytes) (loc : Loc) (tr : Bool) (var : Bytes) (e : Expr)
     (mods : LoopMods) {bodyM : M Status} (hb : MRelM t Eq bodyM bodyM) (tooMany : Bool)
     (elseM : Option (M Status)) (he : ∀ m, elseM = some m → MRelM t Eq m m) :
-    MRelM t Eq (loopRun P path loc tr var e mods bodyM tooMany elseM) (loopRun P path loc tr var e mods bodyM tooMany elseM) := by
+    MRelM t Eq (loopRun budget P path loc tr var e mods bodyM tooMany elseM) (loopRun budget P path loc tr var e mods bodyM tooMany elseM) := by
   unfold loopRun
   refine mrelM_wrapAt _ _ (mrelM_evaluate P hP e (fun v v' hv => ?_))
   refine mrelM_bind (mrelM_ofRes (loopItems_mp hv)) (fun items items' hi => ?_)
